@@ -288,7 +288,8 @@ Impl(f, pt) ==
     [] a = "UNKNOWN" /\ k = "wk"                              -> M("val", ResetC)
     [] k \in {"val", "valm"} /\ a = "AS_PATH" /\ pt = "confed" -> M("val", ResetC)
     [] k \in {"val", "valm"}                                  -> M("val", Withdraw)
-    [] k = "zlen" \/ k = "alone"                              -> M("none", None)
+    [] k = "zlen"                                             -> M("dec", None)   \* looked at by the decoder, accepted
+    [] k = "alone"                                            -> M("none", None)
     [] k = "flags" \/ (a = "UNKNOWN" /\ k = "wk0")            -> M("dec", Withdraw)
     [] a \in {"MP_REACH", "MP_UNREACH"}                       -> M("dec", ResetC)
     [] a \in {"ATOMIC_AGGREGATE", "AGGREGATOR"}               -> M("dec", Discard)
@@ -331,7 +332,11 @@ MechClass(fs, pt, taw, fixed) ==
 Masked(fs, pt, taw) ==
   /\ taw
   /\ FrameSeen(fs, pt) = {}
-  /\ ClsMax(StageOf(fs, pt, "dec"), pt) \in {Discard, Withdraw}
+  /\ ClsMax(StageOf(fs, pt, "dec"), pt) # ResetC
+  \* a decode error of class discard / withdraw; a zero-length list counts as one (it is none on the
+  \* pinned tree - then nothing is masked and the strict invariants hold - but becomes one as soon
+  \* as KF-C06-zero-length-list-attribute is repaired)
+  /\ \E f \in StageOf(fs, pt, "dec") : Impl(f, pt).cls \in {Discard, Withdraw} \/ f.k = "zlen"
   /\ StageOf(fs, pt, "val") # {}
 (* KF-C06-ibgp-local-pref-not-mandatory: ValidateUpdateMsg never asks for LOCAL_PREF *)
 KF_LocalPref(fs) == Has(fs, "LOCAL_PREF", "miss")
